@@ -22,6 +22,8 @@ struct NioCloseSyscall<I: CloseSyscall> {
 impl<I: CloseSyscall> CloseSyscall for NioCloseSyscall<I> {
     extern "C" fn close(&self, fn_ptr: Option<&extern "C" fn(c_int) -> c_int>, fd: c_int) -> c_int {
         _ = EventLoops::del_event(fd);
+        // the number may be handed out again: the next socket must not inherit these limits
+        crate::syscall::unix::forget_time_limit(fd);
         self.inner.close(fn_ptr, fd)
     }
 }
